@@ -117,6 +117,34 @@ def pur_rules(ctx):
     _fixture(ctx)
 
 
+def pur_global(ctx, modules):
+    """PUR-GLOBAL restricted to some modules: a function that writes into a module- or
+    class-level array leaks state from one call into the next (the value returned for one
+    input then depends on the calls made before)."""
+    ctx.rule('PUR-GLOBAL', 'no write to module/class constants (results do not depend on '
+             'earlier calls)')
+    E = _effects(ctx)
+    n = 0
+    for f in ctx.repo.all_functions():
+        if f.module.name.split('.')[-1] not in modules:
+            continue
+        S = E.sum[f.fq]
+        n += 1
+        bad = False
+        for key, sites in S.writes.items():
+            if key.startswith('<global'):
+                bad = True
+                for node, reason, _ in sites[:3]:
+                    ctx.ob('PUR-GLOBAL', False, None, 'no write to %s' % key, f=f, node=node,
+                           why='%s writes into shared constant %s: %s (later calls see the '
+                               'stale values)' % (f.qualname, key, reason))
+        if not bad:
+            ctx.ob('PUR-GLOBAL', True, None, '%s writes no module/class-level array'
+                   % f.qualname, f=f, key='global-' + f.qualname)
+    ctx.floor('PUR-GLOBAL', n, 5, 'functions examined')
+    _fixture(ctx)
+
+
 def _fixture(ctx):
     """Zero-expected-count rules carry a positive example that must match on every run."""
     import os
